@@ -32,7 +32,7 @@ ASSUMPTIONS = [
 ]
 
 KEYS = ["foo", "bar", "a", "a.b", "a.bc", "some.deep", "backend.slurm", "backend.slurm.log_mode", "backend.slurmx.y", "backend.local.port", "verbose", "clean_logs", "use_spec_hashes", "some.deep.dotted.key", "UPPER"]
-VALUES = ["5", "-5", "+7", " 8 ", "007", "0", "yes", "no", "true", "false", "Yes", "TRUE", "False", "", "1.5", "1e3", "1_0", "abc", "hello world", "x" * 300, "None", "null", "[1]", "{}", "ü", "full", "merged", "none", "debug", "info", "warning", "12abc", " yes", "٣"]
+VALUES = ["5", "-5", "+7", " 8 ", "007", "0", "yes", "no", "true", "false", "Yes", "TRUE", "False", "", "1.5", "1e3", "1_0", "abc", "hello world", "x" * 300, "None", "null", "[1]", "{}", "ü", "full", "merged", "none", "debug", "info", "warning", "12abc", " yes", "٣", "caf\udce9", "\udcff\udcfe raw bytes"]  # the last two: what Python makes of command-line bytes that are not UTF-8
 DEFAULTS = {"verbose": "info", "clean_logs": True, "use_spec_hashes": False}
 
 
@@ -142,6 +142,8 @@ def run_roundtrip(case):
                     want = [str(DEFAULTS[key])]
                 else:
                     want = ["<not set>"]
+                # (the harness' stdout replaces what cannot be encoded, e.g. the lone surrogates of non-UTF-8 arguments)
+                want = [w.encode("utf-8", "replace").decode("utf-8") for w in want]
                 if got not in want:
                     res.violation("get-mismatch", "`gwf config get %s` printed %r; expected %s" % (key, got, want), **ctx)
             # file == model, next to workflow.py, nowhere else
